@@ -427,6 +427,28 @@ def check_issafe(crate, rep, cfg):
 SPECIALS = {"38": "&", "60": "<", "62": ">", "34": "\"", "39": "'"}
 
 
+def closure_stops_at_all_specials(cb):
+    """the predicate closure answers true for each of the five special bytes"""
+    for sb in sorted(cb.reachable):
+        t = cb.term(sb)
+        if t["k"] != "switch" or t.get("ty") != "u8":
+            continue
+        tg = dict((v, tgt) for v, tgt in t["targets"])
+        if not all(v in tg for v in SPECIALS):
+            continue
+        good = True
+        for v in SPECIALS:
+            vals = set()
+            for bb, idx, st in cb.stmts(sorted(cb.reach_from(tg[v], removed_blocks=frozenset([sb])))):
+                if idx != "t" and st.get("k") == "assign" and st["pl"]["l"] == 0 and not st["pl"]["p"] and st["rv"]["k"] == "use" and st["rv"]["op"]["k"] == "const":
+                    vals.add(str(st["rv"]["op"].get("v")))
+            if vals != {"1"} or tg[v] == t["otherwise"]:
+                good = False
+        if good:
+            return True
+    return False
+
+
 def check_esc(crate, rep, cfg):
     feats = set(crate.features)
     cands = [b for b in crate.in_files("utils.rs") if b.path.endswith("escape_html")]
@@ -466,6 +488,54 @@ def check_esc(crate, rep, cfg):
         ok = bool(consts) and all(not any(c in s for c in "<>\"'") for s in consts)
         what = "the default escaper's arm for %r writes a constant entity free of < > \" ' (%s)" % (ch, sorted(consts))
         (rep.ok if ok else rep.bad)("C01.ESC", key, f.where(tgt), what if ok else what + " — VIOLATED")
+    # ... and nothing else of the input reaches the output raw: a write whose bytes come from the input is either ONE byte (the byte the
+    # five-way switch just looked at, `slice::from_ref(c)`), or a run that a search for the first special character has cleared — and
+    # that search must stop at all five
+    k = 0
+    for bd in crate.with_closures(f):
+        btr = Tracer(bd)
+        for bb, t in bd.calls():
+            if not callee_def(t).endswith("Write::write_all"):
+                continue
+            data = [l for l in btr.operand(t["args"][1]) if l.kind != "cycle"]
+            # `entity(c).unwrap_or(from_ref(c))`: either alternative; a crate-local lookup table of constants counts as a constant
+            from props.c07 import returns_only_consts
+            for _ in range(3):
+                nxt = []
+                for l in data:
+                    if l.kind == "call" and l.detail[0].rsplit("::", 1)[-1] in ("unwrap_or", "unwrap_or_else"):
+                        ct = bd.term(l.detail[2])
+                        for a in ct["args"]:
+                            nxt += [x for x in btr.operand(a) if x.kind != "cycle"]
+                    elif l.kind == "agg" and l.detail[0] == "adt" and l.detail[2] == "Some":
+                        nxt += [x for x in btr.operand(bd.blocks[l.detail[3]]["s"][l.detail[4]]["rv"]["ops"][0]) if x.kind != "cycle"]
+                    elif l.kind == "agg" and l.detail[0] == "adt" and l.detail[2] == "None":
+                        continue
+                    elif l.kind == "call" and l.detail[0] in crate.bodies and returns_only_consts(crate, crate.bodies[l.detail[0]]):
+                        nxt.append(type(l)(("const", ("table", l.detail[0]), ())))
+                    else:
+                        nxt.append(l)
+                data = nxt
+            if all(l.kind == "const" for l in data):
+                continue     # constants only (an entity)
+            ok, why = True, ""
+            for l in data:
+                if l.kind == "const" or (l.kind == "call" and l.detail[0].endswith("from_ref")):
+                    continue
+                if l.kind == "agg" and l.detail[0] == "array" and len(bd.blocks[l.detail[3]]["s"][l.detail[4]]["rv"]["ops"]) == 1:
+                    continue     # `&[*c]`: one byte
+                # a run of input bytes: cleared by position(|b| <special?>) — whole input on its None edge, or the prefix below its result
+                pos = [(pb, pt) for pb, pt in bd.calls() if callee_def(pt).endswith("Iterator::position") and bd.dominates(pb, bb)]
+                cleared = False
+                for pb, pt in pos:
+                    cls = [bd.blocks[x.detail[3]]["s"][x.detail[4]]["rv"]["def"] for x in btr.operand(pt["args"][1]) if x.kind == "agg" and x.detail[0] == "closure"]
+                    if len(cls) == 1 and cls[0] in crate.bodies and closure_stops_at_all_specials(crate.bodies[cls[0]]):
+                        cleared = True
+                if not cleared:
+                    ok, why = False, "a run of input bytes (%s) is written without a search that stops at all of & < > \" '" % leaf_str(l)
+            rep.add("C01.ESC", "C01.ESC:default:raw-write#%d" % k, ok, bd.where(bb), "input bytes are written raw one at a time behind the five-way switch, or as a run cleared by a "
+                    "search for all five special characters" + ("" if ok else " — VIOLATED: " + why))
+            k += 1
     # escape_fn default value and writers
     n = 0
     for a in field_accesses(crate, "tera::Tera", "escape_fn"):
